@@ -1334,6 +1334,8 @@ def _np_asarray(x, *a, **k):
         return x
     if isinstance(x, (list, tuple)) and _ints(x) is not None:
         return list(_ints(x))
+    if isinstance(x, (list, tuple)):
+        return list(x)                 # a sequence of (opaque) scalars: still a sequence of those scalars
     return term('np.asarray', x)
 
 
@@ -1788,6 +1790,7 @@ def make_world_externals(world_ref):
              AbstractVar=Subscriptable("AbstractVar"), AbstractClassVar=Subscriptable("AbstractClassVar"),
              is_array=lambda x: isinstance(x, (AT, Sym)), is_inexact_array=lambda x: isinstance(x, (AT, Sym)),
              partition=lambda tree, spec: (term('partition.params', tree), term('partition.static', tree)),
+             filter=lambda tree, spec, inverse=False, **k: term('partition.static' if fz(inverse) else 'partition.params', tree),
              combine=lambda *trees: ModelToken(trees),
              filter_jit=_identity_decorator)
     optax = NS("optax", apply_updates=apply_updates_model,
